@@ -56,3 +56,201 @@ def collapse_as(h):
     tied = set(v for p in pairs for v in p)
     rest = [q for q in range(N) if q not in tied]
     h.check('other-parameters-unchanged', ' and '.join('y[%d] == x0[%d]' % (q, q) for q in rest) or 'True', y=y, x0=x0)
+
+
+STOPS = [('CollapseAt with {"tolerance": 0.01}',), ('CollapseAt with {}', 'CollapseAs with {}'), ('VTR with {"tolerance": 0.1}', 'CollapseAt with {}'),
+         ('CollapseAs with {}', 'ChangeOverGeneration with {}'), ('CollapseAt with {}', 'NormalizedChangeOverGeneration with {}', 'CollapseAs with {}'),
+         ('EvaluationLimits with {}', 'CollapsePosition with {}')]
+
+
+@contract('C11/__get_collapses', ['C11'], A + '._AbstractSolver__get_collapses', native=False)
+def get_collapses(h):
+    """a detected collapse is handed on for application only when NOTHING BUT collapse conditions stopped the solver: if
+    any other stop condition holds as well the run ends with the current best point, so a relation applied now would
+    hold neither at a later evaluation nor in the reported solution -- then nothing may be applied ({} is returned).
+    The stop message is `; `-joined condition descriptions (Terminated(info=True) or the cached __stop__)."""
+    if not h.is_sym():
+        h.unsupported('symbolic only')
+    parts = h.choice('stop_message', STOPS)
+    cached = h.choice('stop_message_cached_in___stop__', [True, False])
+    found = h.choice('collapse_detected', [True, False])
+    msg = '; '.join(parts)
+    coll = h.dict()
+    if found:
+        coll = h.dict(**{p: h.clist([0]) for p in parts if p.startswith('Collapse')})
+    fields = dict(_collapse=True)
+    if cached:
+        fields['__stop__'] = msg
+    s = h.obj(A, **fields)
+    h.set_summaries({(AS, 'AbstractSolver.Collapsed'): lambda I, c, a, k: coll,
+                     (AS, 'AbstractSolver.Terminated'): lambda I, c, a, k: msg})
+    r = h.call(h.getattr(s, '_AbstractSolver__get_collapses'))
+    only_collapse = all(p.startswith('Collapse') for p in parts)
+    if found and only_collapse:
+        h.check('collapses-handed-on-when-only-collapse-conditions-stopped-the-solver', 'same(r, coll)', r=r, coll=coll)
+    elif found:
+        h.check('nothing-applied-when-another-stop-condition-holds-too', 'len(r) == 0', r=r)
+    else:
+        h.check('nothing-to-apply-when-nothing-was-detected', 'len(r) == 0', r=r)
+
+
+@contract('C11/Collapse', ['C11'], A + '.Collapse', native=False)
+def collapse(h):
+    """Collapse(): what __get_collapses hands on is applied in full -- the constraints built for exactly that report are
+    installed AND the termination whose masks were extended by exactly that report is installed -- and reported back;
+    with nothing handed on the solver is left untouched"""
+    if not h.is_sym():
+        h.unsupported('symbolic only')
+    found = h.choice('collapse_handed_on', [True, False])
+    rep = h.dict(**({'CollapseAt with {}': h.clist([1])} if found else {}))
+    state, newterm, newcons = h.dict(), h.fn('MASKED_TERMINATION', ret='bool'), h.fn('COLLAPSED_CONSTRAINTS', ret='same')
+    calls = []
+    s = h.obj(A, _collapse=True, _constraints=h.fn('OLD_CONSTRAINTS', ret='same'), _termination=h.fn('OLD_TERMINATION', ret='bool'))
+
+    def rec(name, ret):
+        def f(I, c, a, k):
+            calls.append((name, list(a[1:])))
+            return ret
+        return f
+    h.set_summaries({(AS, 'AbstractSolver.__get_collapses'): lambda I, c, a, k: rep,
+                     (AS, 'AbstractSolver.__collapse_termination'): rec('termination-for', (state, newterm)),
+                     (AS, 'AbstractSolver.__collapse_constraints'): rec('constraints-for', newcons),
+                     (AS, 'AbstractSolver.SetConstraints'): rec('SetConstraints', None),
+                     (AS, 'AbstractSolver.SetTermination'): rec('SetTermination', None)})
+    r = h.call(h.getattr(s, 'Collapse'))
+    h.check('the-report-is-returned', 'same(r, rep)', r=r, rep=rep)
+    names = [c[0] for c in calls]
+    if found:
+        ok = (names.count('SetConstraints') == 1 and names.count('SetTermination') == 1 and
+              [a for n, a in calls if n == 'SetConstraints'][0][0] is newcons and
+              [a for n, a in calls if n == 'SetTermination'][0][0] is newterm and
+              all(a[-1] is rep for n, a in calls if n in ('termination-for', 'constraints-for')) and
+              [a for n, a in calls if n == 'constraints-for'][0][0] is state)
+        h.check('constraints-and-masked-termination-built-from-this-report-are-both-installed', 'ok', ok=ok)
+    else:
+        h.check('solver-untouched-when-nothing-is-handed-on', 'ok', ok=('SetConstraints' not in names and 'SetTermination' not in names))
+
+
+MK = 'mystic/mask.py'
+SET_CASES = [((), (1,)), ((0,), (2, 3)), ((0, 2), (2,)), ((1,), ())]
+DICT_CASES = [({}, {0: (1,)}), ({0: (1,)}, {0: (2,)}), ({0: (1,)}, {1: (0, 2)}), ({0: (1,), 2: (0,)}, {0: (1, 3), 1: (2,)}), ({0: (1, 2)}, {})]
+PAIR_CASES = [(((0,), (1,)), ((2,), (0,))), (((), ()), ((1,), (3,)))]        # where-format masks: (rows, cols)
+
+
+@contract('C11/mask._extend_mask', ['C11'], MK + '::_extend_mask', native=False)
+def extend_mask(h):
+    """the termination rebuilt after a collapse has mask = old mask UNION what was applied (sets: union; per-measure dicts:
+    union per measure, measures not masked before are added, measures not collapsed now are kept; where-format pairs:
+    concatenation) and every other setting of the condition unchanged -- "the mask grows by what was applied" """
+    if not h.is_sym():
+        h.unsupported('symbolic only')
+    kind = h.choice('mask_format', ['set', 'dict', 'pairs', 'none-yet'])
+    tol = h.real('tolerance')
+    if kind == 'set':
+        old, new = h.choice('masks', SET_CASES)
+        oldv, newv = h.st.alloc('set', list(old)), h.st.alloc('set', list(new))
+        if not old:
+            oldv = h.choice('empty_mask_spelled', ['None', 'set'])
+            oldv = None if oldv == 'None' else h.st.alloc('set', [])
+    elif kind == 'dict':
+        old, new = h.choice('masks', DICT_CASES)
+        oldv = h.st.alloc('dict', {k: h.st.alloc('set', list(v)) for k, v in old.items()})
+        newv = h.st.alloc('dict', {k: h.st.alloc('set', list(v)) for k, v in new.items()})
+    elif kind == 'pairs':
+        old, new = h.choice('masks', PAIR_CASES)
+        oldv, newv = (tuple(old[0]), tuple(old[1])), (tuple(new[0]), tuple(new[1]))
+    else:
+        old, new = None, (4,)
+        oldv, newv = None, h.st.alloc('set', [4])
+    kw = h.st.alloc('dict', {'tolerance': tol, 'generations': 50, 'mask': oldv})
+    built = []
+
+    def state(I, c, a, k):
+        return I.st.alloc('dict', {'CollapseX with {...}': kw})
+
+    def typ(I, c, a, k):
+        from pyvc.values import AbsFun
+        def ctor(I_, args, kwargs):
+            built.append(dict(kwargs))
+            return 'REBUILT-CONDITION'
+        return AbsFun('CONDITION_TYPE', ctor)
+    h.set_summaries({('mystic/termination.py', 'state'): state, ('mystic/termination.py', 'type'): typ})
+    r = h.call(h.get(MK + '::_extend_mask'), h.fn('CONDITION', ret='bool'), newv)
+    h.check('condition-rebuilt-once-from-its-own-type', 'ok', ok=(r == 'REBUILT-CONDITION' and len(built) == 1))
+    if len(built) != 1:
+        return
+    b = built[0]
+    h.check('other-settings-unchanged', 'ok', ok=(sorted(b) == ['generations', 'mask', 'tolerance'] and b['generations'] == 50 and b['tolerance'] is tol))
+    m = b['mask']
+
+    def as_set(v):
+        return set(h.st.heap[v]) if not isinstance(v, (tuple, list, set, frozenset)) else set(v)
+    if kind in ('set', 'none-yet'):
+        want = set(old or ()) | set(new)
+        h.check('mask-is-the-union-of-the-old-mask-and-what-was-applied', 'ok', ok=(m is not None and as_set(m) == want))
+    elif kind == 'dict':
+        want = {k: set(v) for k, v in old.items()}
+        for k, v in new.items():
+            want.setdefault(k, set()).update(v)
+        cell = h.st.heap[m] if m is not None and not isinstance(m, dict) else (m or {})
+        got = {k: as_set(v) for k, v in cell.items()}
+        h.check('per-measure-mask-is-the-union-of-the-old-mask-and-what-was-applied', 'ok', ok=(got == want))
+    else:
+        want = (tuple(old[0]) + tuple(new[0]), tuple(old[1]) + tuple(new[1]))
+        got = tuple(tuple(h.st.heap[x]) if not isinstance(x, tuple) else x for x in (m if isinstance(m, tuple) else tuple(h.st.heap[m])))
+        h.check('where-format-mask-is-old-entries-followed-by-the-applied-ones', 'ok', ok=(got == want))
+
+
+TM = 'mystic/termination.py::'
+# (kind asked for, structure): leaves are doc strings; tuples are compound conditions (And / Or alternate by depth)
+TREES = [('CollapseAt', ('CollapseAt with {}', 'VTR with {}')),
+         ('CollapseAs', ('VTR with {}', ('CollapseAs with {}', 'CollapseAt with {}'))),
+         ('CollapseAt', (('CollapseAt with {"mask": None}', 'CollapseAs with {}'), ('ChangeOverGeneration with {}', 'CollapseAt with {"target": 0}'))),
+         ('CollapsePosition', ('CollapseWeight with {}', 'VTR with {}')),
+         ('', ('CollapseAt with {}', 'CollapseAs with {}', 'VTR with {}'))]
+
+
+@contract('C11/mask._update_masks', ['C11'], MK + '::_update_masks', native=False)
+def update_masks(h):
+    """in a compound termination exactly the member conditions of the reported kind (to any nesting depth) get the mask;
+    every other member is the SAME object as before and the And / Or structure is rebuilt with the same types and order"""
+    if not h.is_sym():
+        h.unsupported('symbolic only')
+    kind, tree = h.choice('condition', TREES)
+    leaves = {}
+
+    def build(t, depth=0):
+        if isinstance(t, tuple):
+            return h.tuple_obj(TM + ('Or' if depth % 2 == 0 else 'And'), [build(x, depth + 1) for x in t])
+        f = h.fn('LEAF_%d' % len(leaves), ret='bool', attrs={'__doc__': t})
+        leaves[id(f)] = (f, t)
+        return f
+    cond = build(tree)
+    ext = {}
+
+    def extend(I, c, a, k):
+        from pyvc.values import AbsFun
+        g = AbsFun('EXTENDED', lambda I_, args, kwargs: False)
+        ext[id(g)] = a[0]
+        return g
+    h.set_summaries({('mystic/mask.py', '_extend_mask'): extend})
+    mask = h.st.alloc('set', [1])
+    r = h.call(h.get(MK + '::_update_masks'), cond, mask, kind)
+    want_kind = kind if kind else 'Collapse'
+    ok = []
+
+    def same_shape(new, old, t, depth=0):
+        if isinstance(t, tuple):
+            items_n = h.st.heap[new]['__items__'] if hasattr(new, 'kind') else None
+            items_o = h.st.heap[old]['__items__']
+            ok.append(items_n is not None and new.cls is old.cls and len(items_n) == len(items_o))
+            if ok[-1]:
+                for n_, o_, t_ in zip(items_n, items_o, t):
+                    same_shape(n_, o_, t_, depth + 1)
+        else:
+            if t.startswith(want_kind):
+                ok.append(id(new) in ext and ext[id(new)] is old)       # replaced by the extension of exactly this member
+            else:
+                ok.append(new is old)
+    same_shape(r, cond, tree)
+    h.check('exactly-the-members-of-the-reported-kind-are-extended-structure-kept', 'ok', ok=all(ok) and len(ok) > 0)
